@@ -294,6 +294,10 @@ def generate(tier, seed):
     # collision tables (deterministic witnesses of the separator's role)
     yield "table", {"rows": [["AB", "C"], ["A", "BC"], ["AB", "C"]], "cols": ["x", "y"], "kinds": ["str", "str"]}, True
     yield "table", {"rows": [["", "AB"], ["A", "B"], ["AB", ""]], "cols": ["x", "y"], "kinds": ["str", "str"]}, True
+    # numeric cells that agree in their first six significant digits are different cells
+    yield "table", {"rows": [[1000001.0, "A"], [1000002.0, "A"], [1000001.0, "A"], [0.12345671, "A"], [0.12345672, "A"], [16777216.0, "B"], [16777217.0, "B"]],
+                    "cols": ["x", "y"], "kinds": ["num", "str"]}, True
+    yield "table", {"rows": [[1000001, None], [1000002, None], [None, 3.0], [1000001, None]], "cols": ["x", "y"], "kinds": ["num", "num"]}, True
     # cells that differ only by a trailing NUL / control character are different cells
     yield "table", {"rows": [["AB\x00", "C"], ["AB", "C"], ["AB", "C\x00"], ["AB", "C"], ["AB\n", "C"]], "cols": ["x", "y"], "kinds": ["str", "str"]}, True
     yield "table", {"rows": [["A\x00"], ["A"], ["A\x00\x00"], ["A\x00"]], "cols": ["x"], "kinds": ["str"]}, True
